@@ -239,7 +239,11 @@ Section ReaderProofs.
           { case_eq (t_flag t); intros Ef; [|reflexivity]. cbn [andb].
             rewrite (Lacc Ef), revT_rev, rev_involutive. fold c p. rewrite Hp, firstN_all by lia.
             unfold c. rewrite (Hsum Ef target Lt), N.eqb_refl. reflexivity. }
-          rewrite Hchk. rewrite <- HFE, endpos_w64, Edone, N.ltb_irrefl, N.eqb_refl.
+          rewrite Hchk.
+          assert (Hnew : sfc && (r_doff st <? e_d (ent t (target + 1))) = false).
+          { replace (r_doff st <? e_d (ent t (target + 1))) with false by (symmetry; apply N.ltb_ge; lia). apply andb_false_r. }
+          rewrite Hnew.
+          rewrite <- HFE, endpos_w64, Edone, N.ltb_irrefl, N.eqb_refl.
           cbn. split; [reflexivity|]. split.
           * unfold dst_ok in Ldst. replace (r_doff st - offset) with len in Ldst by lia. exact Ldst.
           * right. left. cbn [r_cur r_doff]. rewrite Lcur. split; [assumption|lia].
@@ -356,6 +360,9 @@ Section ReaderProofs.
             unfold c. rewrite (Hsum Ef target Lt), N.eqb_refl. reflexivity. }
           rewrite Hchk.
           assert (Hd2 : r_doff st + k = D (target + 1)) by (fold c in HL; lia).
+          assert (Hnew : sfc && (r_doff st + k <? FE) = false).
+          { replace (r_doff st + k <? FE) with false by (symmetry; apply N.ltb_ge; unfold FE; lia). apply andb_false_r. }
+          rewrite Hnew.
           destruct (N.ltb_spec (r_doff st + k) endpos) as [Hmore|Hstop].
           * (* move on to the frame containing the new offset *)
             destruct (offset_to_frame_spec t (r_doff st + k) W) as [_ Ho2f].
@@ -659,7 +666,7 @@ Definition after_first_read : rstate :=
   end.
 Lemma stale_cache_wrong_data :
   exists st', seekable_decompress ex_H ex_content 4 16 ex_t0 true
-                (restart_seek_failed ex_t0 true after_first_read 0) [0] 1 0 (repeat (1, true) 8) = ROk 1 [50] st'
+                (restart_seek_failed ex_t0 true after_first_read 0) [0] 1 0 (repeat (1, false) 8) = ROk 1 [50] st'
               /\ sliceN ex_x 0 1 = [10].
 Proof. eexists. split; vm_compute; reflexivity. Qed.
 Lemma failed_seek_keeps_invariant content t st target : wf_table t ->
